@@ -10,7 +10,7 @@ CONSTANTS MaxArgs, Emit
 
 Kinds == OkKinds \cup LoadFails \cup GenFails
 \* sample ids: argument i contributes ids 10*i + 1 .. (list: two, others: one)
-IdsOf(i, kind) == IF kind = "list" THEN <<10 * i + 1, 10 * i + 2>>
+IdsOf(i, kind) == IF kind \in {"list", "glob"} THEN <<10 * i + 1, 10 * i + 2>>
                   ELSE IF kind \in {"object", "lookup", "nonobject", "nonstrkey"} THEN <<10 * i + 1>> ELSE <<>>
 \* share = TRUE: this argument names the SAME physical file as argument 1, with another lookup
 ArgsSets == {x \in UNION {[1..n -> [flag : {"m", "l"}, model : {"A", "B"}, kind : Kinds, share : BOOLEAN]] : n \in 1..MaxArgs} :
